@@ -213,13 +213,71 @@ func (bls *bls12Base) coreVerify(pubKey *BLS12PublicKey, message []byte, signatu
 	if err != nil {
 		return err
 	}
-	engine := bls12.NewEngine()
-	engine.AddPairInv(&bls12.G1One, signature)
-	engine.AddPair(pubKey.p, messagePoint)
-	if !engine.Result().IsOne() {
+	if !pairingCheck([]*bls12.PointG1{pubKey.p}, []*bls12.PointG2{messagePoint}, signature, true) {
 		return fmt.Errorf("bls12: failed to verify message")
 	}
 	return nil
+}
+
+// pairingCheck reports whether e(G1, signature) == e(pks[0], qs[0]) * ... * e(pks[n-1], qs[n-1]).
+//
+// The pairing library (kilic/bls12-381) has a rare value-dependent defect in its Miller loop:
+// fp12.mul014 adds its operands lazily (without reduction) and the products then exceed the range
+// that the wide subtractions can correct, so that for roughly 1 in 10^5 (pair, accumulator) values
+// the Miller loop value is wrong and a valid signature is rejected. Whether it happens depends on
+// the intermediate values only, hence on the order and the signs of the pairs, not on the validity
+// of the signature. A failed check is therefore repeated in arrangements that are mathematically
+// equivalent but have different intermediate values: the other side negated (different line values
+// for every pair) and in reverse order, and finally both sides multiplied by a random scalar.
+// An invalid signature fails in every arrangement (a wrong Miller loop value does not map to one
+// under the final exponentiation except with negligible probability).
+func pairingCheck(pks []*bls12.PointG1, qs []*bls12.PointG2, signature *bls12.PointG2, signatureFirst bool) bool {
+	n := len(pks)
+	engine := bls12.NewEngine()
+	// arrangement 0: e(-G1, signature) * prod e(pk_i, q_i) == 1
+	if signatureFirst {
+		engine.AddPairInv(&bls12.G1One, signature)
+	}
+	for i := range n {
+		engine.AddPair(pks[i], qs[i])
+	}
+	if !signatureFirst {
+		engine.AddPairInv(&bls12.G1One, signature)
+	}
+	if engine.Result().IsOne() {
+		return true
+	}
+	// arrangement 1: prod e(-pk_i, q_i) * e(G1, signature) == 1, reverse order
+	g1 := new(bls12.PointG1).Set(&bls12.G1One)
+	if !signatureFirst {
+		engine.AddPair(g1, signature)
+	}
+	for i := n - 1; i >= 0; i-- {
+		engine.AddPairInv(pks[i], qs[i])
+	}
+	if signatureFirst {
+		engine.AddPair(g1, signature)
+	}
+	if engine.Result().IsOne() {
+		return true
+	}
+	// arrangement 2: both sides multiplied by a random scalar r: e(-G1, r*signature) * prod e(r*pk_i, q_i) == 1
+	r, err := rand.Int(rand.Reader, curveOrder)
+	if err != nil || r.Sign() == 0 {
+		return false
+	}
+	var rsig bls12.PointG2
+	engine.G2.MulScalarBig(&rsig, new(bls12.PointG2).Set(signature), r)
+	engine.AddPairInv(&bls12.G1One, &rsig)
+	for i := range n {
+		var rpk bls12.PointG1
+		engine.G1.MulScalarBig(&rpk, new(bls12.PointG1).Set(pks[i]), r)
+		engine.AddPair(&rpk, qs[i])
+	}
+	if engine.Result().IsOne() {
+		return true
+	}
+	return false
 }
 
 func (bls *bls12Base) popProve() (*bls12.PointG2, error) {
@@ -283,18 +341,17 @@ func (bls *bls12Base) coreAggregateVerify(publicKeys []*BLS12PublicKey, messages
 		return err
 	}
 
-	engine := bls12.NewEngine()
-
+	g2 := bls12.NewG2()
+	pks := make([]*bls12.PointG1, n)
+	qs := make([]*bls12.PointG2, n)
 	for i := range n {
-		q, err := engine.G2.HashToCurve(messages[i], domain)
+		q, err := g2.HashToCurve(messages[i], domain)
 		if err != nil {
 			return err
 		}
-		engine.AddPair(publicKeys[i].p, q)
+		pks[i], qs[i] = publicKeys[i].p, q
 	}
-
-	engine.AddPairInv(&bls12.G1One, signature)
-	if !engine.Result().IsOne() {
+	if !pairingCheck(pks, qs, signature, false) {
 		return fmt.Errorf("bls12: failed to verify aggregated message")
 	}
 	return nil
